@@ -22,6 +22,14 @@ CLAIMED = {
         "pattern elaboration follows declaration order. The decision tree's correctness for a given matrix is not decided.",
    technique="static analysis: resolved-callee whitelist on row vectors, sibling cross-check of push tables, guard/shape rules",
    ref="DESIGN.md section 4, C06"),
+ "C07": dict(
+   text="Static decision of the type-level machinery of specialisation: the instantiation unifier has a diagonal arm for every "
+        "monomorphic type former, every structural traversal of Ty (auto-discovered: self-recursive, descends into >=2 formers) handles "
+        "every child-carrying former explicitly and uses every child, the genericity/substitution anchors are structural, instances are "
+        "keyed by a sorted substitution and looked up before creation, and a call's substitution uses arguments and result type. "
+        "Termination and behavioural equality of instances are not decided.",
+   technique="static analysis: variant-coverage audit (diagonal coverage for pair matches) over auto-discovered type traversals, guard/order shape rules",
+   ref="DESIGN.md section 4, C07"),
  "C09": dict(
    text="Static decision of where evaluation order is fixed: continuation nesting in ANF follows the declaration order of children, "
         "logical operators' rhs must not be hoisted, branches and loop parts keep their own region (ANF and compile_while), DCE's effect "
